@@ -126,12 +126,23 @@ def r8a_diagnostic_codes(ctx):
             hops += 1
         return bb if g.id == f.id else None
     nested = [f] + [g for g in crate.real_fns() if g.id != f.id and g.id.startswith(f.id + "::")]
+    # builders: local functions the publisher calls that return Diagnostics; their constructions count at the calling block
+    built_at = {}
+    for g0 in list(nested):
+        for bb0, c0 in g0.calls():
+            tf = crate.fns.get(c0.get("res")) if c0.get("res_local") else None
+            if tf is not None and tf.kind in ("fn", "method") and re.search(r"\bDiagnostic\b", tf.ret or "") and not is_gate_call(g0, c0):
+                rb0 = root_block(g0, bb0)
+                for h in [tf] + [x for x in crate.real_fns() if x.root == tf.id and x.id != tf.id]:
+                    built_at.setdefault(h.id, rb0)
+                    if h not in nested:
+                        nested.append(h)
     codes = defaultdict(list)
     for g in nested:
         for bb, si, pl, rv, sp in g.assigns():
             if rv[0] == "agg" and rv[1][0] == "adt" and rv[1][1].endswith("::Diagnostic") and "code" in rv[1][3]:
                 lits = literals_reaching(g, rv[2][rv[1][3].index("code")])
-                rb = root_block(g, bb)
+                rb = built_at[g.id] if g.id in built_at else root_block(g, bb)
                 for l in lits:
                     codes[l].append(rb)
                 if not lits:
